@@ -295,6 +295,7 @@ type c13Dir struct {
 	Q        int    `json:"q"`          // third peer: 0 never, 1 before the bundle, 2 after it, 3 before it and failing first, 4 before it over two convergence layers, 5 after it over two layers
 	Restart  bool   `json:"restart"`    // orderly restart before the last ticks
 	Copies   int    `json:"copies"`     // binary spray: copies announced in the received bundle (0 = no block)
+	Dup      bool   `json:"dup,omitempty"` // received bundles: a second copy arrives (from P again) after the first retry tick, while the node holds the bundle
 	Bcast    int    `json:"bcast"`      // dtlsr: link-state broadcasts of one origin arriving via P: 0 none, 1 = two fresh ones, 2 = fresh then stale, 3 = fresh, stale, fresh
 }
 
@@ -353,6 +354,9 @@ func (d c13Dir) history() hCase {
 		bc(false)
 	}
 	op("tick", 0, false)
+	if d.Dup && !d.Local {
+		op("recvdup", 0, false)
+	}
 	if d.DDown {
 		op("down", 1, false)
 	}
@@ -383,7 +387,7 @@ func (d c13Dir) history() hCase {
 
 func TestVerifC13Directed(t *testing.T) {
 	u := vk.Unit{Property: "C13", Name: "c13.directed",
-		Rule: "exhaustive product of circumstances around ONE bundle and three peers P (previous node), D (destination node) and Q (relay), per algorithm (epidemic, prophet, spray, binary_spray with 0/1/5 announced copies, dtlsr, sensor-mule): submitted or received from P; destination D or a node that never connects; D connected at arrival or not, its transmissions failing or not, D disappearing afterwards or not; P connected before or only after the arrival; Q never / before / after / before-and-failing-first / connected over two convergence layers (before or after); orderly restart or not; for dtlsr additionally two or three link-state broadcasts of one origin arriving via P with fresh or stale link-state data; then retry ticks. Oracle as c13.histories. Every case is non-trivial (the previous node is connected while the bundle is held); distinct by tuple"}
+		Rule: "exhaustive product of circumstances around ONE bundle and three peers P (previous node), D (destination node) and Q (relay), per algorithm (epidemic, prophet, spray, binary_spray with 0/1/5 announced copies, dtlsr, sensor-mule): submitted or received from P; destination D or a node that never connects; D connected at arrival or not, its transmissions failing or not, D disappearing afterwards or not; P connected before or only after the arrival; Q never / before / after / before-and-failing-first / connected over two convergence layers (before or after); orderly restart or not; a second copy of a received bundle arriving from P after the first retry tick or not; for dtlsr additionally two or three link-state broadcasts of one origin arriving via P with fresh or stale link-state data; then retry ticks. Oracle as c13.histories. Every case is non-trivial (the previous node is connected while the bundle is held); distinct by tuple"}
 	vk.Enumerate(t, u, true, func(yield func(c13Dir) bool) {
 		i := 0
 		bools := []bool{false, true}
@@ -415,12 +419,17 @@ func TestVerifC13Directed(t *testing.T) {
 													bcasts = []int{0, 1, 2, 3}
 												}
 												for _, bcast := range bcasts {
-													i++
-													if !vk.ShardOwns(i) {
-														continue
-													}
-													if !yield(c13Dir{algo, local, destPeer, dUp, dFails, dDown, pLate, q, restart, cp, bcast}) {
-														return
+													for _, dup := range bools {
+														if dup && (local || bcast != 0) {
+															continue
+														}
+														i++
+														if !vk.ShardOwns(i) {
+															continue
+														}
+														if !yield(c13Dir{algo, local, destPeer, dUp, dFails, dDown, pLate, q, restart, cp, dup, bcast}) {
+															return
+														}
 													}
 												}
 											}
